@@ -84,7 +84,41 @@ def rrOracle : Nat → Bytes → List String → Option String
       else rrOracle f rest ds
     | (.bad, _) => some s!"reply-reported-where-none-is:{d}"
 
+/-- why the read that fails fails: `true` = the buffered text is malformed (reported at once),
+    `false` = the stream ended inside a reply (reported when the peer closes) -/
+def badWhy (bo : Bool) : Nat → Bytes → Bytes → Bool
+  | 0, _, _ => false
+  | f + 1, acc, stream =>
+    if stream.isEmpty then false else
+    let (line, rest) := takeLine [] stream
+    match run bo init (acc ++ line) with
+    | .ok _ _ => false
+    | .incomplete => badWhy bo f (acc ++ line) rest
+    | _ => true
+
+def streamEndsMalformed : Nat → Bytes → Bool
+  | 0, _ => false
+  | f + 1, stream =>
+    match readResp stream with
+    | (.reply _, rest) => streamEndsMalformed f rest
+    | (.bad, _) => badWhy bareOk (stream.length + 1) [] stream
+
 def rrOp : List String → String
+  | [_mode, stream, _cuts, _hold, res, late] =>
+    match ofHex stream with
+    | some s =>
+      if res == "PANIC" then propfail "panic" else
+      let impl := res.splitOn ";"
+      if impl.contains "HANG" then propfail "read_response-still-blocked-3s-after-a-malformed-or-complete-reply" else
+      match rrOracle 70 s impl with
+      | some e => propfail e
+      | none =>
+        let m := rrModel 64 s
+        if m != impl then s!"MISMATCH rr model={";".intercalate m}"
+        else if streamEndsMalformed 70 s && late == "late=1" then
+          propfail "malformed-reply-reported-only-when-the-peer-closed"
+        else "ok"
+    | none => "BADLINE"
   | [_mode, stream, _cuts, res] =>
     match ofHex stream with
     | some s =>
